@@ -1,3 +1,1073 @@
-"""analysis of serve()/serve_inner (shared by C01-C06, C13-C15)"""
-def c03_r5(ctx):
+"""Analysis of `serve` / its trait-object inner function (shared by C01-C06, C13-C15).
+
+PX enumerates every path of the inner function (callees that take a response
+Builder are expanded; the conditional-header function, the range parser and the
+entity are uninterpreted atoms).  Each path becomes an *exit row*:
+  status, ordered header list (name, value term), body kind, and the valuation of
+  the recognised atoms (method tests, conditional result, If-Range gate, range
+  resolution, estimate test ...).
+Rules then read properties off the rows (typestate matrix, value identity of
+Content-Length / Content-Range / get_range arguments, decision tables)."""
+from ..px import const, is_const, is_agg, agg_get, mk_binop, TY, fmt_term
+from ..zone import Zone
+from .. import px as P
+from .. import facts as F
+from ..models import decode_template, payload
+from .common import where, short, method_name, arg_type, aggregates
+
+HDR = "http::header::"
+
+
+def find_serve(ctx):
+    from ..check import FailClosed
+    cands = [f for f in ctx.facts.fns.values() if f["kind"] == "fn" and f["path"].split("::")[-1] == "serve" and f.get("vis") == "Public"]
+    if len(cands) != 1:
+        raise FailClosed("public entry point `serve` not found uniquely (%d candidates)" % len(cands))
+    serve = cands[0]["path"]
+    body = ctx.body(serve)
+    inner = []
+    for i, t in ctx.facts.calls(body):
+        c = t["callee"]
+        rp = c.get("res_path")
+        if c.get("res_local") and rp in ctx.facts.bodies and len(ctx.facts.bodies[rp]["blocks"]) > 20:
+            inner.append(rp)
+    inner = sorted(set(inner))
+    if len(inner) != 1:
+        raise FailClosed("expected one large crate-local callee of `serve` (the trait-object inner function), found %r" % inner)
+    return serve, inner[0]
+
+
+def takes_builder(ctx, name):
+    b = ctx.facts.bodies.get(name)
+    if not b:
+        return False
+    return any("http::response::Builder" in b["locals"][i]["s"] for i in range(1, b["arg_count"] + 1))
+
+
+def is_cast_helper(ctx, name):
+    """a one-block function whose body is a single integer cast of its argument (e.g. usize -> u64)"""
+    b = ctx.facts.bodies.get(name)
+    if not b or b["arg_count"] != 1:
+        return False
+    blks = [x for x in b["blocks"] if not x["cleanup"]]
+    if len(blks) != 1 or blks[0]["term"]["k"] != "return":
+        return False
+    sts = [s for s in blks[0]["stmts"] if s["k"] == "assign"]
+    return len(sts) >= 1 and all(s["rv"]["k"] in ("cast", "use") for s in sts) and any(s["rv"]["k"] == "cast" for s in sts)
+
+
+def hdr_name(t):
+    if isinstance(t, tuple) and t[0] == "named":
+        n = t[1]
+        return n.split("::")[-1]
+    if t == ("ENTITY",):
+        return "ENTITY"
+    return fmt_term(t)
+
+
+def fmt_value(v):
+    """decode a header value term -> dict(kind=..., ...)"""
+    if not isinstance(v, tuple):
+        return {"kind": "other", "term": v}
+    if v[0] == "hv_static":
+        return {"kind": "static", "text": v[1][1] if isinstance(v[1], tuple) and v[1][0] == "str" else None}
+    if v[0] == "hv" and isinstance(v[1], tuple) and v[1][0] == "frozen":
+        buf = v[1][1]
+        pieces = []
+        while isinstance(buf, tuple) and buf[0] == "appended":
+            pieces.append(buf[2])
+            buf = buf[1]
+        pieces.reverse()
+        if len(pieces) == 1 and pieces[0][0] == "fmt" and isinstance(pieces[0][1], tuple) and pieces[0][1][0] == "fmtargs":
+            fa = pieces[0][1]
+            tpl = decode_template(fa[1]) if isinstance(fa[1], str) else None
+            return {"kind": "fmt", "template": tpl, "args": list(fa[2]), "cap": buf[2] if buf[0] == "newbuf" else None}
+        return {"kind": "bytes", "pieces": pieces}
+    if v[0] == "call" and v[1].endswith("fmt_http_date"):
+        return {"kind": "httpdate", "time": v[2][0]}
+    return {"kind": "term", "term": v}
+
+
+def template_text(tpl):
+    if tpl is None:
+        return None
+    return "".join(p[1] if p[0] == "lit" else "{}" for p in tpl)
+
+
+def body_kind(b):
+    if not isinstance(b, tuple):
+        return {"kind": "?"}
+    if b[0] == "call" and b[1].endswith("Body::<D, E>::empty"):
+        return {"kind": "empty", "len": 0}
+    if b[0] == "call" and "From<" in b[1] and "Body<" in b[1]:
+        a = b[2][0]
+        if isinstance(a, tuple) and a[0] in ("str", "bytes"):
+            return {"kind": "literal", "len": len(a[1]), "text": a[1]}
+        return {"kind": "once-dynamic", "arg": a}
+    if is_agg(b) and b[2] and b[2].endswith("Body"):
+        inner = agg_get(b, "0")
+        if is_agg(inner):
+            v = inner[3]
+            if v == "ExactLen":
+                els = agg_get(inner, "0")
+                if isinstance(els, tuple) and els[0] == "call" and els[1].endswith("ExactLenStream::<D, E>::new"):
+                    budget, stream = els[2][0], els[2][1]
+                    d = {"kind": "exactlen", "budget": budget, "stream": stream}
+                    if isinstance(stream, tuple) and stream[0] == "call" and stream[1].endswith("get_range"):
+                        d["range"] = stream[2][1]
+                        d["entity"] = stream[2][0]
+                    return d
+                return {"kind": "exactlen-unrecognised", "term": els}
+            if v == "Once":
+                return {"kind": "once-agg", "term": inner}
+            return {"kind": "stream:" + str(v), "term": inner}
+    return {"kind": "unrecognised", "term": b}
+
+
+class Row:
     pass
+
+
+def atoms_of(ctx, o):
+    """name the branch decisions of a path"""
+    at = {}
+    other = []
+    c = o.cons
+    for ent in c.log:
+        kind, t, v = ent
+        nm = atom_name(t)
+        if nm is None:
+            other.append((kind, t, v))
+            continue
+        if kind == "eq":
+            at[nm] = v
+        elif kind == "variant":
+            at[nm] = v
+        elif kind == "notvariant":
+            at[nm] = ("not", v)
+        elif kind == "notin":
+            at[nm] = ("notin", v)
+    return at, other
+
+
+METHOD_PARAMS = set()
+METHODS = {"http::Method::GET": "GET", "http::Method::HEAD": "HEAD"}
+
+
+def _is_method_const(t):
+    if isinstance(t, tuple) and t[0] == "named" and t[1] in METHODS:
+        return METHODS[t[1]]
+    return None
+
+
+def atom_name(t):
+    if not isinstance(t, tuple):
+        return None
+    k = t[0]
+    if k == "eq":
+        for a, b in ((t[1], t[2]), (t[2], t[1])):
+            m = _is_method_const(b)
+            if m:
+                return "method==" + m
+        return None
+    if k == "field" and t[2] == "0" and isinstance(t[1], tuple) and t[1][0] == "deref" and t[1][1][0] == "param" \
+            and t[1][1][1] in METHOD_PARAMS:
+        return "method.inner"
+    if k == "call":
+        nm = t[1]
+        if nm.endswith("HeaderMap::<T>::get"):
+            h = t[2][1]
+            if isinstance(h, tuple) and h[0] == "named":
+                return "get(%s)" % h[1].split("::")[-1]
+        if nm.endswith("Entity::etag"):
+            return "etag"
+        if nm.endswith("Entity::last_modified"):
+            return "last_modified"
+        if nm.endswith("::starts_with"):
+            lit = t[2][1]
+            if isinstance(lit, tuple) and lit[0] in ("refconst", "&"):
+                lit = lit[1]
+            if isinstance(lit, tuple) and lit[0] in ("str", "bytes"):
+                return "starts_with(%r)" % lit[1]
+            return "starts_with(?)"
+        for key, label in (("strong_eq", "strong_eq"), ("weak_eq", "weak_eq")):
+            if nm.endswith(key):
+                return label
+        return "call:" + nm.split("::")[-1]
+    if k == "payload":
+        inner = atom_name(t[1])
+        if inner:
+            return "%s.%s" % (inner, t[3])
+    if k == "field":
+        inner = atom_name(t[1])
+        if inner:
+            return "%s.%s" % (inner, t[2])
+    if k == "binop":
+        return None
+    if k == "discr":
+        inner = atom_name(t[1])
+        if inner:
+            return inner
+    return None
+
+
+def analyse(ctx):
+    if hasattr(ctx, "_serve_model"):
+        return ctx._serve_model
+    serve, inner = find_serve(ctx)
+    inl = lambda c, d: takes_builder(ctx, c.get("res_path")) or is_cast_helper(ctx, c.get("res_path"))
+    ib = ctx.facts.bodies[inner]
+    METHOD_PARAMS.clear()
+    for i in range(1, ib["arg_count"] + 1):
+        if "http::Method" in ib["locals"][i]["s"]:
+            METHOD_PARAMS.add(i)
+    outs = ctx.px(inner, inline=inl, key="builder-takers")
+    ctx.assume("http::Method::HEAD is Method(Inner::Head) and Method equality is structural: paths on which `== Method::HEAD` "
+               "and the `Inner::Head` discriminant test disagree are infeasible and dropped")
+    rows = []
+    for o in outs:
+        if o.kind != "return":
+            r = Row()
+            r.o, r.kind, r.ok = o, o.kind, False
+            rows.append(r)
+            continue
+        r = Row()
+        r.o = o
+        r.kind = "return"
+        r.ok = True
+        v = o.value
+        r.variant = v[3] if is_agg(v) else None
+        r.atoms, r.other = atoms_of(ctx, o)
+        mi = r.atoms.get("method.inner")
+        is_head_inner = (mi == "Head") if mi is not None and not isinstance(mi, tuple) else (False if mi is not None else None)
+        if is_head_inner is not None:
+            if r.atoms.get("method==HEAD") is not None and bool(r.atoms["method==HEAD"]) != is_head_inner:
+                continue
+            if r.atoms.get("method==GET") == 1 and is_head_inner:
+                continue
+        if r.atoms.get("method==GET") == 1 and r.atoms.get("method==HEAD") == 1:
+            continue
+        r.method = "GET" if r.atoms.get("method==GET") == 1 else ("HEAD" if r.atoms.get("method==HEAD") == 1 or is_head_inner else
+                                                                     ("OTHER" if r.atoms.get("method==GET") == 0 and r.atoms.get("method==HEAD") == 0 else "?"))
+        r.multipart = None
+        resp = None
+        if r.variant == "Simple":
+            resp = agg_get(v, "0")
+            if not (is_agg(resp) and resp[2] == "http::Response"):
+                r.ok = False
+                r.why = "response is not built from a recognised Builder chain: %s" % short(resp, 200)
+                rows.append(r)
+                continue
+            st = agg_get(resp, "status")
+            r.status = 200 if st == ("default_status",) else (st[1] if is_const(st) else st)
+            hd = agg_get(resp, "headers")
+            r.headers = [(hdr_name(h[0]), h[1], h[2]) for h in hd[1]] if isinstance(hd, tuple) and hd[0] == "hdrs" else None
+            r.body = body_kind(agg_get(resp, "body"))
+        elif r.variant == "Multipart":
+            b = agg_get(v, "res")
+            if not (isinstance(b, tuple) and b[0] == "builder"):
+                r.ok = False
+                r.why = "multipart response builder not recognised: %s" % short(b, 200)
+                rows.append(r)
+                continue
+            r.status = 200 if b[1] is None else (b[1][1] if is_const(b[1]) else b[1])
+            r.headers = [(hdr_name(h[0]), h[1], h[2]) for h in b[2]]
+            r.body = {"kind": "multipart", "part_headers": agg_get(v, "part_headers"), "ranges": agg_get(v, "ranges"),
+                      "len": agg_get(v, "len")}
+            r.tainted = b[3]
+        else:
+            r.ok = False
+            r.why = "return value is not a recognised instruction variant: %s" % short(v, 200)
+        rows.append(r)
+    M = {"serve": serve, "inner": inner, "rows": rows, "outs": outs}
+    ctx._serve_model = M
+    bad = [r for r in rows if not r.ok]
+    return M
+
+
+def hdr_names(r):
+    return [h[0] for h in r.headers]
+
+
+def get_hdr(r, name):
+    return [h for h in r.headers if h[0] == name]
+
+
+def fail_unrecognised(ctx, rule, M):
+    n = 0
+    for r in M["rows"]:
+        if not r.ok:
+            n += 1
+            if r.kind != "return":
+                if r.kind in ("diverge",):
+                    continue
+                if r.kind == "backedge" and r.o.where and r.o.where[0] != M["inner"]:
+                    continue  # one iteration of a loop in an expanded callee (analysed by the multipart rules)
+                ctx.violation(rule, rule + "|path-" + r.kind, "a path of the serve inner function ends in %s" % r.kind)
+            else:
+                ctx.violation(rule, rule + "|unrecognised-exit", "UNRECOGNISED exit: %s" % r.why)
+    return n
+
+
+# ------------------------------------------------------------------ helpers over rows
+
+ALLOWED_STATUS = {200, 206, 304, 400, 405, 412, 413, 416}
+
+
+def ok_rows(M):
+    return [r for r in M["rows"] if r.ok]
+
+
+def events(r, pred):
+    return [e for e in r.o.events if e["k"] == "call" and pred(e)]
+
+
+def callee_last(e):
+    return (e["callee"].get("res_path") or e["callee"].get("path") or "").split("::")[-1]
+
+
+def dyn_entity_calls(r):
+    return events(r, lambda e: (e["callee"].get("path") or "").startswith("Entity::"))
+
+
+def cond_fn_event(ctx, r):
+    """the call to the conditional-header function: crate-local callee returning Result<(bool, bool), _>"""
+    for e in r.o.events:
+        if e["k"] == "call" and e["callee"].get("res_local") and "Result<(bool, bool)" in e["dest"]["ty"]["s"]:
+            return e
+    return None
+
+
+def parser_event(ctx, r):
+    from . import rangeparse as RP
+    _, _, fns, _ = RP.find_parser(ctx)
+    for e in r.o.events:
+        if e["k"] == "call" and e["callee"].get("res_path") in fns:
+            return e
+    return None
+
+
+def cond_state(ctx, r):
+    """-> ('err'|'ok', pf, nm) or None if the function was not called on this path"""
+    e = cond_fn_event(ctx, r)
+    if e is None:
+        return None
+    res = e.get("result")
+    v = r.o.cons.variant_of(res)
+    if v == "Err":
+        return ("err", None, None)
+    tup = ("payload", res, "Ok", "0")
+    pf = r.o.cons.known.get(("field", tup, "0"))
+    nm = r.o.cons.known.get(("field", tup, "1"))
+    return ("ok", pf, nm)
+
+
+def fmt_arg_values(fv):
+    out = []
+    for a in fv.get("args", []):
+        if isinstance(a, tuple) and a[0] == "fmtarg":
+            out.append((a[1], a[2], a[3]))
+        else:
+            out.append(("?", "?", a))
+    return out
+
+
+def entity_len_term(r):
+    for e in r.o.events:
+        if e["k"] == "call" and e["callee"].get("path") == "Entity::len":
+            return e.get("result")
+    return None
+
+
+def strip_uid(headers):
+    return [(h[0], h[1]) for h in headers]
+
+
+def row_where(r):
+    # last branch site of the path as a location hint
+    for e in reversed(r.o.events):
+        if "span" in e:
+            return F.loc(e["span"])
+    return None
+
+
+# ------------------------------------------------------------------ C13.R2 / R3
+
+def c13_status_set(ctx, M):
+    seen = {}
+    for r in ok_rows(M):
+        seen[r.status] = seen.get(r.status, 0) + 1
+    for s, n in sorted(seen.items(), key=lambda kv: str(kv[0])):
+        if s in ALLOWED_STATUS:
+            ctx.ok("C13.R2", "status %s" % s, detail={"rows": n})
+        else:
+            ctx.violation("C13.R2", "C13.R2|status|%s" % (s,), "serve can answer with status %s, outside {200,206,304,400,405,412,413,416}" % (s,))
+    ctx.floor("C13.R2", len(seen), 6, confirmed=8, what="distinct statuses over all exits")
+
+
+def c13_method_gate(ctx, M):
+    n405 = 0
+    for r in ok_rows(M):
+        if r.status == 405:
+            n405 += 1
+            if r.method != "OTHER":
+                ctx.violation("C13.R3", "C13.R3|405-for-%s" % r.method, "405 is returned on a path where the method is %s" % r.method, where=row_where(r))
+            allow = get_hdr(r, "ALLOW")
+            txt = (fmt_value(allow[0][1]).get("text") or "") if allow else ""
+            if not allow or "get" not in txt.lower() or "head" not in txt.lower():
+                ctx.violation("C13.R3", "C13.R3|allow", "the 405 response lacks an Allow header naming GET and HEAD (found %r)" % txt, where=row_where(r))
+            else:
+                ctx.ok("C13.R3", "405 Allow=%r" % txt)
+            if dyn_entity_calls(r):
+                ctx.violation("C13.R3", "C13.R3|entity-before-gate", "the entity is consulted (%s) before a non-GET/HEAD method is rejected" %
+                              callee_last(dyn_entity_calls(r)[0]), where=where(dyn_entity_calls(r)[0]))
+        elif r.method == "OTHER":
+            ctx.violation("C13.R3", "C13.R3|other-method-%s" % r.status, "a method other than GET/HEAD reaches a %s response" % r.status, where=row_where(r))
+        elif r.method == "?":
+            ctx.violation("C13.R3", "C13.R3|ungated", "an exit (status %s) is reachable without the method having been tested against GET and HEAD" % r.status, where=row_where(r))
+    ctx.floor("C13.R3", n405, 1, what="405 exits")
+    if n405:
+        ctx.ok("C13.R3", "405 iff method not in {GET, HEAD}", detail={"rows_405": n405})
+
+
+# ------------------------------------------------------------------ C01.R1 / R2
+
+def c01_typestate(ctx, M):
+    n2xx = nother = 0
+    for r in ok_rows(M):
+        cl = get_hdr(r, "CONTENT_LENGTH")
+        if r.status in (200, 206):
+            n2xx += 1
+            if len(cl) != 1:
+                ctx.violation("C01.R1", "C01.R1|content-length|%s|%s|%d" % (r.status, r.body["kind"], len(cl)),
+                              "a %s exit (%s body, %s) carries %d Content-Length headers; exactly one is required" % (r.status, r.body["kind"], r.method, len(cl)),
+                              where=row_where(r))
+        else:
+            nother += 1
+            if r.body["kind"] not in ("empty", "literal", "once-dynamic"):
+                ctx.violation("C01.R1", "C01.R1|non-2xx-streams|%s" % r.status,
+                              "a %s exit has a %s body: only one-shot bodies advertise an exact size without Content-Length" % (r.status, r.body["kind"]), where=row_where(r))
+            if cl:
+                fv = fmt_value(cl[0][1])
+                okv = False
+                if r.body["kind"] in ("empty", "literal") and fv["kind"] == "static":
+                    okv = fv.get("text") == str(r.body["len"])
+                if not okv:
+                    ctx.violation("C01.R1", "C01.R1|cl-on-%s" % r.status, "a %s exit sets a Content-Length that is not the literal body's length" % r.status, where=row_where(r))
+    ctx.ok("C01.R1", "2xx exits carry exactly one Content-Length", detail={"rows": n2xx})
+    ctx.ok("C01.R1", "non-2xx exits use one-shot bodies", detail={"rows": nother})
+    ctx.floor("C01.R1", n2xx, 4, what="200/206 exit rows")
+
+
+def cl_value_term(r):
+    cl = get_hdr(r, "CONTENT_LENGTH")
+    if len(cl) != 1:
+        return None, "no single Content-Length"
+    fv = fmt_value(cl[0][1])
+    if fv["kind"] != "fmt" or template_text(fv["template"]) != "{}":
+        return None, "Content-Length is not formatted from one integer with `{}` (found %s)" % (template_text(fv.get("template")) if fv["kind"] == "fmt" else fv["kind"])
+    args = fmt_arg_values(fv)
+    if len(args) != 1 or args[0][0] != "display" or args[0][1] not in ("u64", "usize"):
+        return None, "Content-Length argument is not a Display of an unsigned integer"
+    return args[0][2], None
+
+
+def c01_single_source(ctx, M):
+    n = 0
+    for r in ok_rows(M):
+        if r.status not in (200, 206) or r.body["kind"] == "multipart":
+            continue
+        if r.body["kind"] not in ("exactlen", "empty"):
+            ctx.violation("C01.R2", "C01.R2|body-kind|%s" % r.body["kind"],
+                          "a %s exit streams entity data through %s, not through the length-checked stream" % (r.status, r.body["kind"]), where=row_where(r))
+            continue
+        if r.body["kind"] != "exactlen":
+            continue
+        n += 1
+        v, why = cl_value_term(r)
+        if v is None:
+            ctx.violation("C01.R2", "C01.R2|cl-shape", why, where=row_where(r))
+            continue
+        budget = r.body["budget"]
+        rng = r.body.get("range")
+        if rng is None:
+            ctx.violation("C01.R2", "C01.R2|stream-source", "the length-checked stream does not wrap Entity::get_range", where=row_where(r))
+            continue
+        rl = range_len(rng)
+        bad = []
+        if v != budget:
+            bad.append("Content-Length value %s differs from the stream budget %s" % (short(v, 80), short(budget, 80)))
+        if rl is None or not same_len(budget, rl):
+            bad.append("stream budget %s is not end-start of the range %s passed to get_range" % (short(budget, 80), short(rng, 80)))
+        if bad:
+            ctx.violation("C01.R2", "C01.R2|mismatch|%s" % r.status, "; ".join(bad), where=row_where(r))
+    ctx.ok("C01.R2", "Content-Length == ExactLen budget == |get_range argument|", detail={"rows": n})
+    ctx.floor("C01.R2", n, 2, what="GET rows with a streamed body")
+
+
+def range_parts(rng):
+    """(start, end) terms of a Range<u64> value term"""
+    if is_agg(rng) and rng[2] and rng[2].endswith("ops::Range"):
+        return agg_get(rng, "start"), agg_get(rng, "end")
+    return ("field", rng, "start"), ("field", rng, "end")
+
+
+def range_len(rng):
+    s, e = range_parts(rng)
+    return mk_binop("Sub", e, s)
+
+
+def same_len(a, b):
+    if a == b:
+        return True
+    return False
+
+
+# ------------------------------------------------------------------ C02.R2
+
+def c02_content_range(ctx, M):
+    n206 = n200 = 0
+    for r in ok_rows(M):
+        if r.body["kind"] == "multipart" or r.status not in (200, 206):
+            continue
+        cr = get_hdr(r, "CONTENT_RANGE")
+        pe = parser_event(ctx, r)
+        L = entity_len_term(r)
+        if r.status == 206 and any(h[0] == "CONTENT_TYPE" and "multipart" in str(fmt_value(h[1]).get("text")) for h in r.headers):
+            continue  # HEAD twin of the multipart response (C06)
+        if r.status == 200:
+            n200 += 1
+            if cr:
+                ctx.violation("C02.R2", "C02.R2|cr-on-200", "a 200 exit carries Content-Range", where=row_where(r))
+            if r.body["kind"] == "exactlen":
+                s, e = range_parts(r.body["range"])
+                if not (s == const(0) and L is not None and e == L):
+                    ctx.violation("C02.R2", "C02.R2|200-range", "a 200 body is fetched with get_range(%s..%s), not 0..len()" % (short(s, 60), short(e, 60)), where=row_where(r))
+            continue
+        n206 += 1
+        if len(cr) != 1:
+            ctx.violation("C02.R2", "C02.R2|206-without-cr", "a single-range 206 exit carries %d Content-Range headers" % len(cr), where=row_where(r))
+            continue
+        fv = fmt_value(cr[0][1])
+        tt = template_text(fv.get("template")) if fv["kind"] == "fmt" else None
+        if tt != "bytes {}-{}/{}":
+            ctx.violation("C02.R2", "C02.R2|cr-template", "Content-Range template is %r, expected 'bytes {}-{}/{}'" % tt, where=row_where(r))
+            continue
+        args = fmt_arg_values(fv)
+        if pe is None or L is None:
+            ctx.violation("C02.R2", "C02.R2|206-no-parser", "a 206 exit is reached without the range parser / entity length", where=row_where(r))
+            continue
+        if pe["args"][1] != L:
+            ctx.violation("C02.R2", "C02.R2|parser-len", "the range parser is not given the entity length", where=where(pe))
+        # the range: for GET rows the get_range argument; for HEAD rows the value the headers were computed from
+        bad = []
+        a0, a1, a2 = (a[2] for a in args)
+        if any(a[0] != "display" or a[1] != "u64" for a in args):
+            bad.append("Content-Range arguments are not Display of u64")
+        if a2 != L:
+            bad.append("complete-length %s is not Entity::len()" % short(a2, 60))
+        # a1 must be (x.end - 1) and a0 x.start for one range value x that comes out of the parser's list
+        x_end = None
+        if isinstance(a1, tuple) and a1[0] == "binop" and a1[1] == "Sub" and a1[3] == const(1):
+            x_end = a1[2]
+        if x_end is None:
+            bad.append("last-byte-pos %s is not `end - 1`" % short(a1, 60))
+        else:
+            xs = owner_of(a0, "start")
+            xe = owner_of(x_end, "end")
+            if xs is None or xe is None or xs != xe:
+                bad.append("first-byte-pos and last-byte-pos are not the start/end of one range value")
+            else:
+                if not from_parser(xs, pe.get("result")):
+                    bad.append("the range shown in Content-Range does not come from the resolved range list")
+                if r.body["kind"] == "exactlen":
+                    gs, ge = range_parts(r.body["range"])
+                    if not (gs == a0 and ge == x_end):
+                        bad.append("get_range is called with %s..%s but Content-Range shows %s..%s" % (short(gs, 40), short(ge, 40), short(a0, 40), short(x_end, 40)))
+        if bad:
+            ctx.violation("C02.R2", "C02.R2|206|%s" % bad[0].split(" ")[0], "; ".join(bad), where=row_where(r))
+    ctx.ok("C02.R2", "single 206: Content-Range = (x.start, x.end-1, len) of the fetched x", detail={"rows": n206})
+    ctx.ok("C02.R2", "200: no Content-Range, body = get_range(0..len)", detail={"rows": n200})
+    ctx.floor("C02.R2", n206, 2, what="single-range 206 rows")
+
+
+def owner_of(t, field):
+    if isinstance(t, tuple) and t[0] == "field" and t[2] == field:
+        return t[1]
+    return None
+
+
+def from_parser(x, parser_result, depth=0):
+    """does value x derive (by indexing / deref / clone) from the parser's Satisfiable payload?"""
+    if x == parser_result:
+        return True
+    if not isinstance(x, tuple) or depth > 12:
+        return False
+    items = x[1:] if isinstance(x[0], str) else x
+    return any(from_parser(i, parser_result, depth + 1) for i in items if isinstance(i, tuple))
+
+
+# ------------------------------------------------------------------ C03.R5 dispatch
+
+def estimate_closure_info(ctx, inner):
+    """analyse the fold closure of the multipart estimate: returns (constant c, ok, why)"""
+    # closures of the inner function that are passed to try_fold / fold
+    b = ctx.facts.bodies[inner]
+    cands = []
+    for i, t in ctx.facts.calls(b):
+        p = t["callee"].get("path", "")
+        if p.endswith("Iterator::try_fold") or p.endswith("Iterator::fold"):
+            cands.append(t)
+    return cands
+
+
+def c03_r5(ctx):
+    M = analyse(ctx)
+    from . import rangeparse as RP
+    adt, variant, fns, _ = RP.find_parser(ctx)
+    nrows = {"None": 0, "NotSatisfiable": 0, "single": 0, "multi-mp": 0, "multi-200": 0}
+    for r in ok_rows(M):
+        pe = parser_event(ctx, r)
+        if pe is None:
+            continue
+        res = pe["result"]
+        v = r.o.cons.variant_of(res)
+        L = entity_len_term(r)
+        if v == "None":
+            nrows["None"] += 1
+            if r.status != 200:
+                ctx.violation("C03.R5", "C03.R5|ignored-range-status|%s" % r.status, "an ignored Range header leads to status %s, not 200" % r.status, where=row_where(r))
+        elif v == "NotSatisfiable":
+            nrows["NotSatisfiable"] += 1
+            bad = []
+            if r.status != 416:
+                bad.append("status %s instead of 416" % r.status)
+            cr = get_hdr(r, "CONTENT_RANGE")
+            if len(cr) != 1:
+                bad.append("%d Content-Range headers" % len(cr))
+            else:
+                fv = fmt_value(cr[0][1])
+                tt = template_text(fv.get("template")) if fv["kind"] == "fmt" else None
+                args = fmt_arg_values(fv) if fv["kind"] == "fmt" else []
+                if tt != "bytes */{}":
+                    bad.append("Content-Range template %r is not 'bytes */{}'" % tt)
+                elif len(args) != 1 or args[0][2] != L or args[0][0] != "display":
+                    bad.append("Content-Range complete-length is %s, not Entity::len()" % short(args[0][2] if args else None, 60))
+            if r.body["kind"] != "empty":
+                bad.append("416 body is %s" % r.body["kind"])
+            if bad:
+                ctx.violation("C03.R5", "C03.R5|416|%s" % bad[0].split(" ")[0], "unsatisfiable ranges: " + "; ".join(bad), where=row_where(r))
+        elif v == variant:
+            # single vs multiple: the decision on the list length
+            lens = [(t, val) for t, val in r.o.cons.known.items() if isinstance(t, tuple) and t[0] == "len" and from_parser(t, res)]
+            single = any(val == 1 for _, val in lens)
+            if single:
+                nrows["single"] += 1
+                if r.status != 206 or r.body["kind"] not in ("exactlen", "empty"):
+                    ctx.violation("C03.R5", "C03.R5|single-not-206", "one satisfiable range gives status %s / %s body" % (r.status, r.body["kind"]), where=row_where(r))
+            else:
+                is_mp = r.body["kind"] == "multipart" or any(h[0] == "CONTENT_TYPE" for h in r.headers) or r.status == 413
+                if is_mp:
+                    nrows["multi-mp"] += 1
+                else:
+                    nrows["multi-200"] += 1
+                    if r.status != 200:
+                        ctx.violation("C03.R5", "C03.R5|multi-fallback-status", "several ranges without multipart give status %s, not a complete 200" % r.status, where=row_where(r))
+    for k, n in nrows.items():
+        ctx.ok("C03.R5", "dispatch rows: %s" % k, detail={"rows": n}, nontrivial=n > 0)
+    ctx.floor("C03.R5", min(nrows.values()), 1, what="each of the five dispatch outcomes has rows (%r)" % nrows)
+    c03_estimate(ctx, M)
+
+
+def c03_estimate(ctx, M):
+    """multipart iff estimate < L, estimate = sum(c + (end-start)) with checked adds, 0 <= c <= 160 (`<`) or 1 <= c (`<=`)"""
+    inner = M["inner"]
+    # find the fold closure: a closure body of `inner` with two non-env params (acc, &Range)
+    clos = [n for n, b in ctx.facts.bodies.items() if n.startswith(inner + "::{closure") and b["kind"] == "closure" and b["arg_count"] == 3
+            and "Range<u64>" in b["locals"][3]["s"]]
+    if len(clos) != 1:
+        ctx.violation("C03.R5", "C03.R5|estimate-closure", "UNRECOGNISED: expected one fold closure (acc, &Range<u64>) in %s, found %d" % (inner, len(clos)))
+        return
+    cname = clos[0]
+    outs = ctx.px(cname, inline=lambda c, d: True, key="all")
+    acc = ("param", 2)
+    TY.setdefault(acc, (64, False))
+    consts = set()
+    okshape = True
+    why = ""
+    for o in outs:
+        if o.kind != "return":
+            continue
+        v = o.value
+        var = o.cons.variant_of(v) if not is_agg(v) else v[3]
+        if var == "Some":
+            val = agg_get(v, "0") if is_agg(v) else None
+            # expect acc + c + (r.end - r.start)
+            z = Zone(_all_cons(o))
+            c = find_const_addend(val, acc)
+            if c is None:
+                okshape = False
+                why = "Some(%s) is not acc + c + (end - start)" % short(val, 100)
+            else:
+                consts.add(c)
+    if not okshape or len(consts) != 1:
+        ctx.violation("C03.R5", "C03.R5|estimate-shape", "UNRECOGNISED multipart estimate: %s" % (why or "constants %r" % sorted(consts)), where=F.loc(ctx.facts.bodies[cname]["span"]))
+        return
+    c = next(iter(consts))
+    # the comparison: rows where the estimate is compared with L
+    rel = None
+    for r in ok_rows(M):
+        for t, val in r.o.cons.known.items():
+            if isinstance(t, tuple) and t[0] == "binop" and t[1] in ("Lt", "Le", "Gt", "Ge") and \
+                    ((isinstance(t[2], tuple) and "try_fold" in fmt_term(t[2])[:40]) or (isinstance(t[3], tuple) and "try_fold" in fmt_term(t[3])[:40])):
+                L = entity_len_term(r)
+                op, a, b = t[1], t[2], t[3]
+                if b == L and op in ("Lt", "Le"):
+                    rel = op
+                elif a == L and op in ("Gt", "Ge"):
+                    rel = {"Gt": "Lt", "Ge": "Le"}[op]
+                else:
+                    rel = "?"
+                mp = r.body["kind"] == "multipart" or any(h[0] == "CONTENT_TYPE" for h in r.headers) or r.status == 413
+                if rel in ("Lt", "Le") and bool(val) != mp:
+                    ctx.violation("C03.R5", "C03.R5|estimate-branch", "multipart is chosen on the wrong side of the estimate comparison", where=row_where(r))
+    good = (rel == "Lt" and 0 <= c <= 160) or (rel == "Le" and 1 <= c <= 160)
+    if good:
+        ctx.ok("C03.R5", "multipart iff sum(%d + |r|) %s len" % (c, "<" if rel == "Lt" else "<="), detail={"constant": c, "relation": rel})
+    else:
+        ctx.violation("C03.R5", "C03.R5|estimate-family", "multipart decision `sum(%s + |r|) %s len` is outside the family implied by the statement "
+                      "(0 <= c <= 160 with <, or 1 <= c <= 160 with <=)" % (c, rel), where=F.loc(ctx.facts.bodies[cname]["span"]))
+
+
+def _all_cons(o):
+    cc = P.Cons()
+    cc.rel = list(o.cons.rel)
+    return cc
+
+
+def find_const_addend(val, acc):
+    """val == acc + c + (x.end - x.start)  -> c"""
+    if not isinstance(val, tuple) or val[0] != "binop" or val[1] != "Add":
+        return None
+    a, b = val[2], val[3]
+    for p, q in ((a, b), (b, a)):
+        if isinstance(q, tuple) and q[0] == "binop" and q[1] == "Sub" and owner_of(q[2], "end") is not None and owner_of(q[2], "end") == owner_of(q[3], "start"):
+            # p == acc + c
+            if p == acc:
+                return 0
+            if isinstance(p, tuple) and p[0] == "binop" and p[1] == "Add" and p[2] == acc and is_const(p[3]):
+                return p[3][1]
+    return None
+
+
+# ------------------------------------------------------------------ C04.R6 order of exits
+
+def c04_exit_order(ctx, M):
+    n412 = n304 = n400 = 0
+    for r in ok_rows(M):
+        cs = cond_state(ctx, r)
+        pe = parser_event(ctx, r)
+        if cs is None:
+            if r.status != 405:
+                ctx.violation("C04.R6", "C04.R6|no-cond|%s" % r.status, "a %s exit is reached without evaluating the conditional headers" % r.status, where=row_where(r))
+            continue
+        kind, pf, nm = cs
+        if kind == "err":
+            n400 += 1
+            if r.status != 400:
+                ctx.violation("C04.R6", "C04.R6|err-status", "unparseable conditional headers give %s, not 400" % r.status, where=row_where(r))
+            continue
+        if pf is None:
+            ctx.violation("C04.R6", "C04.R6|pf-unused", "an exit (%s) does not depend on the precondition result" % r.status, where=row_where(r))
+            continue
+        if pf == 1:
+            n412 += 1
+            if r.status != 412:
+                ctx.violation("C04.R6", "C04.R6|pf-not-412", "a failed precondition gives %s, not 412" % r.status, where=row_where(r))
+            if pe is not None:
+                ctx.violation("C04.R6", "C04.R6|range-before-412", "ranges are resolved although the precondition failed", where=where(pe))
+            continue
+        if nm is None:
+            ctx.violation("C04.R6", "C04.R6|nm-unused", "an exit (%s) does not depend on the not-modified result" % r.status, where=row_where(r))
+            continue
+        if nm == 1:
+            n304 += 1
+            if r.status != 304:
+                ctx.violation("C04.R6", "C04.R6|nm-not-304", "not-modified gives %s, not 304" % r.status, where=row_where(r))
+            if pe is not None:
+                ctx.violation("C04.R6", "C04.R6|range-before-304", "ranges are resolved although the response is 304", where=where(pe))
+            continue
+        if r.status in (412, 304):
+            ctx.violation("C04.R6", "C04.R6|spurious-%s" % r.status, "status %s although neither decision demands it" % r.status, where=row_where(r))
+    ctx.ok("C04.R6", "412 before 304 before range handling", detail={"rows_412": n412, "rows_304": n304, "rows_400": n400})
+    ctx.floor("C04.R6", min(n412, n304, n400), 1, what="412 / 304 / 400 rows")
+
+
+# ------------------------------------------------------------------ C05 If-Range gate
+
+def c05_gate(ctx, M):
+    nkeep = ndrop = 0
+    for r in ok_rows(M):
+        pe = parser_event(ctx, r)
+        if pe is None:
+            continue
+        arg = pe["args"][0]
+        is_none = is_agg(arg) and arg[3] == "None"
+        is_range = isinstance(arg, tuple) and arg[0] == "call" and arg[1].endswith("HeaderMap::<T>::get") and \
+            isinstance(arg[2][1], tuple) and arg[2][1] == ("named", HDR + "RANGE")
+        if not (is_none or is_range):
+            ctx.violation("C05.R3", "C05.R3|parser-arg", "the range parser's header argument is neither the request's Range header nor None: %s" % short(arg, 100), where=where(pe))
+            continue
+        ifr = r.atoms.get("get(IF_RANGE)")
+        etag = r.atoms.get("etag")
+        etag_form = r.atoms.get("starts_with('W/\"')") == 1 or r.atoms.get("starts_with('\"')") == 1
+        seq = r.atoms.get("strong_eq")
+        # which comparator was used at the gate (if any)?
+        cmp_ev = [e for e in r.o.events if e["k"] == "call" and e["callee"].get("res_local") and e["dest"]["ty"].get("k") == "bool"
+                  and e["fn"] == M["inner"] and len(e["args"]) == 2]
+        cmp_true = None
+        for e in cmp_ev:
+            res = e.get("result")
+            if res is not None and r.o.cons.known.get(res) is not None:
+                cmp_true = (e, r.o.cons.known.get(res))
+        must_keep = (ifr == "None") or (ifr == "Some" and etag == "Some" and cmp_true is not None and cmp_true[1] == 1)
+        date_free = any(isinstance(t, tuple) and t[0] in ("eq",) and "parse_http_date" in fmt_term(t) and v == 1 for t, v in r.o.cons.known.items())
+        if must_keep:
+            nkeep += 1
+            if not is_range:
+                ctx.violation("C05.R1", "C05.R1|dropped|%s" % ("no-if-range" if ifr == "None" else "matching-strong-tag"),
+                              "the Range header is ignored although %s" % ("the request has no If-Range" if ifr == "None" else "If-Range strongly equals the entity's ETag"),
+                              where=where(pe))
+        elif not date_free:
+            ndrop += 1
+            if not is_none:
+                ctx.violation("C05.R1", "C05.R1|kept|ifr=%s,etag=%s,form=%s,cmp=%s" % (ifr, etag, etag_form, cmp_true[1] if cmp_true else None),
+                              "the Range header is honoured under If-Range without a strong ETag match (If-Range %s, entity etag %s, comparator result %s)" %
+                              (ifr, etag, cmp_true[1] if cmp_true else "not evaluated"), where=where(pe))
+        # the comparator must be applied to (If-Range value, entity etag)
+        if cmp_true is not None:
+            e = cmp_true[0]
+            a, b = e["args"]
+            sa, sb = fmt_term(a), fmt_term(b)
+            if not (("IF_RANGE" in sa and "etag" in sb) or ("IF_RANGE" in sb and "etag" in sa)):
+                ctx.violation("C05.R2", "C05.R2|comparator-args", "the gate comparator is not applied to (If-Range value, entity ETag): %s, %s" % (sa[:80], sb[:80]), where=where(e))
+    ctx.ok("C05.R1", "If-Range gate table", detail={"keep_rows": nkeep, "drop_rows": ndrop})
+    ctx.floor("C05.R1", min(nkeep, ndrop), 2, what="keep / drop rows of the If-Range gate")
+    # R2: the comparator is strong
+    from . import etagcmp
+    names = set()
+    for r in ok_rows(M):
+        for e in r.o.events:
+            if e["k"] == "call" and e["callee"].get("res_local") and e["dest"]["ty"].get("k") == "bool" and e["fn"] == M["inner"] and len(e["args"]) == 2:
+                names.add(e["callee"]["res_path"])
+    for nme in sorted(names):
+        kind, why = etagcmp.comparator_kind(ctx, nme)
+        if kind == "strong":
+            ctx.ok("C05.R2", "gate comparator %s is the strong comparison" % nme)
+        else:
+            ctx.violation("C05.R2", "C05.R2|comparator|%s" % kind, "the If-Range gate compares with `%s`, which is %s (%s); a strong comparison is required" % (nme, kind, why))
+    ctx.floor("C05.R2", len(names), 1, what="comparator calls at the gate")
+
+
+# ------------------------------------------------------------------ C06.R1 multipart exits
+
+def is_multipart_exit(r):
+    if r.body["kind"] == "multipart":
+        return True
+    return any(h[0] == "CONTENT_TYPE" and "multipart" in str(fmt_value(h[1]).get("text")) for h in r.headers)
+
+
+def c06_exits(ctx, M):
+    n = 0
+    tokens = set()
+    for r in ok_rows(M):
+        if not is_multipart_exit(r):
+            continue
+        n += 1
+        bad = []
+        if r.status != 206:
+            bad.append("status %s, not 206" % r.status)
+        ct = get_hdr(r, "CONTENT_TYPE")
+        if len(ct) != 1:
+            bad.append("%d Content-Type headers" % len(ct))
+        else:
+            txt = fmt_value(ct[0][1]).get("text") or ""
+            import re
+            m = re.fullmatch(r"multipart/byteranges; ?boundary=([0-9A-Za-z'()+_,\-./:=?]{1,70})", txt)
+            if not m:
+                bad.append("Content-Type %r is not `multipart/byteranges; boundary=<token>`" % txt)
+            else:
+                tokens.add(m.group(1))
+        if get_hdr(r, "CONTENT_RANGE"):
+            bad.append("a top-level Content-Range is present")
+        if len(get_hdr(r, "CONTENT_LENGTH")) != 1:
+            bad.append("%d Content-Length headers" % len(get_hdr(r, "CONTENT_LENGTH")))
+        if r.method == "HEAD" and r.body["kind"] != "empty":
+            bad.append("HEAD multipart exit has a %s body" % r.body["kind"])
+        if r.method == "GET" and r.body["kind"] != "multipart":
+            bad.append("GET multipart exit has a %s body" % r.body["kind"])
+        if bad:
+            ctx.violation("C06.R1", "C06.R1|%s|%s" % (r.method, bad[0].split(",")[0][:40]), "multipart exit (%s): %s" % (r.method, "; ".join(bad)), where=row_where(r))
+    ctx.ok("C06.R1", "multipart exits: 206, multipart/byteranges Content-Type, one Content-Length, no Content-Range", detail={"rows": n, "boundary": sorted(tokens)})
+    ctx.floor("C06.R1", n, 2, what="multipart exit rows (GET and HEAD)")
+    return tokens
+
+
+# ------------------------------------------------------------------ C14
+
+VALIDATOR_STATUSES = (200, 206, 304, 412, 416)
+
+
+def c14_matrix(ctx, M):
+    n = 0
+    for r in ok_rows(M):
+        if r.status not in VALIDATOR_STATUSES:
+            continue
+        n += 1
+        bad = []
+        ar = get_hdr(r, "ACCEPT_RANGES")
+        if len(ar) != 1 or fmt_value(ar[0][1]).get("text") != "bytes":
+            bad.append("Accept-Ranges: bytes missing")
+        et = get_hdr(r, "ETAG")
+        es = r.atoms.get("etag")
+        if es == "Some":
+            etag_call = None
+            for e in r.o.events:
+                if e["k"] == "call" and e["callee"].get("path") == "Entity::etag":
+                    etag_call = e.get("result")
+            if len(et) != 1:
+                bad.append("entity has an ETag but the response carries %d ETag headers" % len(et))
+            elif et[0][1] != ("payload", etag_call, "Some", "0"):
+                bad.append("ETag header value is not the entity's etag() result unchanged")
+        elif es == "None":
+            if et:
+                bad.append("ETag header although the entity has none")
+        else:
+            bad.append("ETag presence is not decided from Entity::etag()")
+        lm = r.atoms.get("last_modified")
+        d = get_hdr(r, "DATE")
+        l = get_hdr(r, "LAST_MODIFIED")
+        if lm == "Some":
+            if len(d) != 1 or len(l) != 1:
+                bad.append("entity has a modification time but Date/Last-Modified are missing (Date x%d, Last-Modified x%d)" % (len(d), len(l)))
+        elif lm == "None":
+            if l:
+                bad.append("Last-Modified although the entity has no modification time")
+        if bad:
+            ctx.violation("C14.R1", "C14.R1|%s|%s" % (r.status, bad[0][:40]), "status %s: %s" % (r.status, "; ".join(bad)), where=row_where(r))
+    ctx.ok("C14.R1", "validator header matrix on 200/206/304/412/416", detail={"rows": n})
+    ctx.floor("C14.R1", n, 20, what="exit rows with a validator-bearing status")
+
+
+def c14_clamp(ctx, M):
+    """Last-Modified = fmt(min(m, d)), Date = fmt(d') with d' == d (same `now`) or a later now()"""
+    n = 0
+    for r in ok_rows(M):
+        if r.status not in VALIDATOR_STATUSES:
+            continue
+        l = get_hdr(r, "LAST_MODIFIED")
+        d = get_hdr(r, "DATE")
+        if not l:
+            continue
+        n += 1
+        lv, dv = fmt_value(l[0][1]), (fmt_value(d[0][1]) if d else {"kind": None})
+        bad = []
+        if lv["kind"] != "httpdate" or dv["kind"] != "httpdate":
+            bad.append("Date / Last-Modified are not produced by fmt_http_date")
+        else:
+            t = lv["time"]
+            dt = dv["time"]
+            m = None
+            for e in r.o.events:
+                if e["k"] == "call" and e["callee"].get("path") == "Entity::last_modified":
+                    m = ("payload", e.get("result"), "Some", "0")
+            is_now = isinstance(dt, tuple) and dt[0] == "call" and dt[1].endswith("SystemTime::now")
+            if not is_now:
+                bad.append("Date is not the current time")
+            if not (isinstance(t, tuple) and t[0] == "min" and set(t[1:]) == {m, dt}):
+                bad.append("Last-Modified is %s, not min(modification time, the Date's time)" % short(t, 100))
+        if bad:
+            ctx.violation("C14.R2", "C14.R2|%s" % bad[0][:40], "; ".join(bad), where=row_where(r))
+    ctx.ok("C14.R2", "Last-Modified = fmt(min(mtime, now)), Date = fmt(same now)", detail={"rows": n})
+    ctx.floor("C14.R2", n, 10, what="rows with Last-Modified")
+
+
+def c14_entity_headers(ctx, M):
+    n = 0
+    for r in ok_rows(M):
+        ent = get_hdr(r, "ENTITY")
+        ifr = r.atoms.get("get(IF_RANGE)")
+        if r.status in (304, 412, 416, 400, 405, 413):
+            n += 1
+            if ent:
+                ctx.violation("C14.R3", "C14.R3|entity-headers-on-%s" % r.status, "Entity::add_headers is applied to a %s response" % r.status, where=row_where(r))
+        elif r.status == 200:
+            n += 1
+            if len(ent) != 1:
+                ctx.violation("C14.R3", "C14.R3|200-entity-headers|%d" % len(ent), "a 200 response has add_headers applied %d times (expected once)" % len(ent), where=row_where(r))
+        elif r.status == 206 and not is_multipart_exit(r):
+            n += 1
+            if ifr == "None" and len(ent) != 1:
+                ctx.violation("C14.R3", "C14.R3|206-entity-headers", "a 206 without If-Range has add_headers applied %d times (expected once)" % len(ent), where=row_where(r))
+            if len(ent) > 1:
+                ctx.violation("C14.R3", "C14.R3|206-entity-headers-dup", "add_headers applied %d times" % len(ent), where=row_where(r))
+        # entity headers must come last-but-safe: they may not be followed by crate headers that could be overridden -- informational only
+    ctx.ok("C14.R3", "entity headers on 200 / 206-without-If-Range, never on 304/412/416", detail={"rows": n})
+
+
+# ------------------------------------------------------------------ C15 HEAD mirrors GET
+
+def _atoms_wo_method(r):
+    return tuple(sorted((k, str(v)) for k, v in r.atoms.items() if not k.startswith("method")))
+
+
+def c15_pairing(ctx, M):
+    groups = {}
+    for r in ok_rows(M):
+        if r.method in ("GET", "HEAD"):
+            groups.setdefault((_atoms_wo_method(r), tuple(sorted((k, fmt_term(t), str(v)) for k, t, v in r.other if "arg2" not in fmt_term(t)[:30]))), []).append(r)
+    npairs = 0
+    for key, rs in groups.items():
+        gets = [r for r in rs if r.method == "GET"]
+        heads = [r for r in rs if r.method == "HEAD"]
+        if not gets or not heads:
+            r = rs[0]
+            ctx.violation("C15.R1", "C15.R1|unpaired|%s|%s" % (r.method, r.status),
+                          "a %s path (status %s) has no %s twin with the same request/entity decisions: some decision depends on the method" %
+                          (r.method, r.status, "HEAD" if r.method == "GET" else "GET"), where=row_where(r))
+            continue
+        for g in gets:
+            for h in heads:
+                npairs += 1
+                bad = []
+                if g.status != h.status:
+                    bad.append("status %s vs %s" % (g.status, h.status))
+                if strip_uid(g.headers) != strip_uid(h.headers):
+                    gn, hn = hdr_names(g), hdr_names(h)
+                    if gn != hn:
+                        bad.append("header set differs: GET %s vs HEAD %s" % (gn, hn))
+                    else:
+                        for (n1, v1), (n2, v2) in zip(strip_uid(g.headers), strip_uid(h.headers)):
+                            if v1 != v2:
+                                bad.append("header %s value differs: %s vs %s" % (n1, short(v1, 60), short(v2, 60)))
+                                break
+                if h.status in (200, 206, 304, 416) and h.body["kind"] != "empty":
+                    bad.append("HEAD body is %s" % h.body["kind"])
+                if bad:
+                    ctx.violation("C15.R1", "C15.R1|mismatch|%s|%s" % (g.status, bad[0].split(":")[0][:30]),
+                                  "HEAD differs from GET for the same request: %s" % "; ".join(bad), where=row_where(h))
+    ctx.ok("C15.R1", "every GET path has a HEAD twin with equal status and headers", detail={"pairs": npairs, "groups": len(groups)})
+    ctx.floor("C15.R1", npairs, 50, what="GET/HEAD row pairs")
+    # R2: HEAD never asks the entity for bytes
+    nh = 0
+    for r in ok_rows(M):
+        if r.method != "HEAD":
+            continue
+        nh += 1
+        gr = [e for e in dyn_entity_calls(r) if e["callee"]["path"] == "Entity::get_range"]
+        if gr:
+            ctx.violation("C15.R2", "C15.R2|get_range-on-HEAD", "Entity::get_range is called on a HEAD path", where=where(gr[0]))
+        if r.body["kind"] in ("exactlen", "multipart"):
+            ctx.violation("C15.R2", "C15.R2|stream-on-HEAD|%s" % r.body["kind"], "a HEAD path returns a %s body" % r.body["kind"], where=row_where(r))
+    ctx.ok("C15.R2", "no get_range / streamed body on HEAD paths", detail={"head_rows": nh})
+    ctx.floor("C15.R2", nh, 20, what="HEAD rows")
